@@ -468,9 +468,18 @@ func (r *run) makeFollower(id uint64, ld raft.VNode) (*follower, bool) {
 		if start > 0 {
 			pt = r.ledger[start].Term
 		}
+		// a follower's commit index never covers an entry the leader's history does not hold (state-machine
+		// safety): it stays within the prefix on which the preloaded log agrees with the leader's ledger
+		agree := 0
+		for _, e := range entries {
+			if le, ok := r.ledger[e.Index]; !ok || !entryEq(le, e) {
+				break
+			}
+			agree++
+		}
 		commit := uint64(0)
-		if r.rng.Intn(3) == 0 && len(entries) > 0 {
-			commit = start + uint64(r.rng.Intn(len(entries)+1))
+		if r.rng.Intn(3) == 0 && agree > 0 {
+			commit = start + uint64(r.rng.Intn(agree+1))
 		}
 		f.n.Append(raft.VAppendReq{Term: ft, Src: 3, PrevLogIndex: start, PrevLogTerm: pt, LdrCommitIndex: commit, Entries: entries})
 		if rp := f.n.Digest().RpcReply; rp == nil || rp.Result != 1 || f.n.Panic != "" {
